@@ -38,7 +38,7 @@ Section Domain.
   Definition cfg_ok : bool :=
     views_cfg_ok && rk_records (rec_of c MCreate) && rk_records (rec_of c MSelect)
     && rk_records (rec_of c MWithColumn) && rk_records (rec_of c MWithColumnRenamed) && rk_records (rec_of c MAgg)
-    && col_disp_ident c && alias_disp_raw c && str_disp_raw c.
+    && col_disp_ident c && alias_disp_raw c.
 
   Definition null {A} (l : list A) : bool := match l with [] => true | _ => false end.
   Fixpoint nodupb (l : list name) : bool :=
